@@ -134,6 +134,12 @@ fn mutate(tree: &MerkleTree<H>, n: usize, idx: &[usize], count: &mut u64) {
         }
     }
     let mut p = cl(&honest);
+    p.leaves.push(other);
+    rejected(tree, n, idx, &p, "extra leaf appended");
+    let mut p = cl(&honest);
+    p.leaves.push(*honest.leaves.last().unwrap());
+    rejected(tree, n, idx, &p, "last leaf repeated");
+    let mut p = cl(&honest);
     p.leaves.pop();
     rejected(tree, n, idx, &p, "last leaf removed");
     let mut p = cl(&honest);
@@ -163,7 +169,7 @@ fn mutate(tree: &MerkleTree<H>, n: usize, idx: &[usize], count: &mut u64) {
             *count += 1;
         }
     }
-    *count += 7;
+    *count += 9;
     // position mutations: each position replaced by an out-of-range or duplicated one, or by another
     // position that is not opened (the claimed leaf then belongs to a different cell)
     for k in 0..idx.len() {
